@@ -186,6 +186,30 @@ CLAIMED: dict[str, tuple[str, str, str, str, str]] = {
         "Trusted: TLC, OpenSSL (environment), the independent peer. Known finding F10 (deadlock with both writers blocked on a bounded pipe) is "
         "listed in known_findings.json.",
     ),
+    "C09": (
+        "fault_enumeration",
+        "TLA+ spec TLSTruncation (allowed observations of a reader behind a cut ciphertext stream) model-checked by TLC; one live TLS session per "
+        "cut offset x standard_compatible x role x {async transport over in-memory pipes, blocking transport behind a forwarding proxy}; observed "
+        "sequences validated by TLC against TLSTruncationTrace; close sends close_notify (independent peer)",
+        "DESIGN.md section 5 (C09)",
+        "Every enumerated cut (quick: all record boundaries +-2 and a stride; thorough: every byte offset) is executed on the real transports and "
+        "decided by the TLC-checked trace specification: a cut stream never ends with a clean end-of-stream in standard mode, the complete stream "
+        "does, non-standard mode reports end-of-stream.",
+        "Trusted: TLC, OpenSSL. Contexts have OP_IGNORE_UNEXPECTED_EOF cleared (with a user context that keeps it OpenSSL itself reports truncation "
+        "as a clean shutdown).",
+    ),
+    "C14": (
+        "fault_enumeration",
+        "TLA+ spec ClosePaths (obligation of a close path under cancellation at any step / failing inner transports) model-checked by TLC; every "
+        "close path of the real code re-run with the closing task cancelled immediately before each of its steps and with each inner transport "
+        "failing, peers answering / stalling / vanished; runs validated by TLC against ClosePathsTrace",
+        "DESIGN.md section 5 (C14)",
+        "Cancellation is injected before every task step of every modelled close path (TLS aclose with answering / stalled / vanished peer, TLS "
+        "wrap, aclose_forcefully, stapled transports, socket adapter, endpoint, async TCP/UDP clients) and every inner close failure is injected; "
+        "each run must close every wrapped transport by the time the closing task is finished and a second close must be prompt.",
+        "Trusted: TLC; the step-counting coroutine wrapper; recording in-memory inner transports. Server-side client close paths are covered by "
+        "the server checks. Known finding F9 is listed in known_findings.json.",
+    ),
 }
 
 NOT_YET = "check not built yet in this revision of /verif (planned: see DESIGN.md section 0); not claimed until its check exists"
